@@ -947,6 +947,38 @@ func (ex *Exec) boxedComps(obj types.Object) []string {
 	return []string{"ptr." + sanitize(ex.sortOf(t).Name)}
 }
 
+// comparatorUsesIndexesOnlyAsSubscripts: the strict-weak-order obligations are stated over indexes, which
+// is the same as over element values only if the comparator looks at its parameters solely as x[i], x[j]
+// of the sorted slice (`func(i, j int) bool { return i > j }` passes them and is not an order on values:
+// found by the bounded validation). Anything else is out of fragment.
+func (ex *Exec) comparatorUsesIndexesOnlyAsSubscripts(pc *preparedCall) {
+	lit := pc.args[1].Clo.Lit
+	xs := nodeString(ex.fset, unparen(pc.call.Args[0]))
+	params := map[types.Object]bool{}
+	for _, f := range lit.Type.Params.List {
+		for _, n := range f.Names {
+			if o := ex.info.Defs[n]; o != nil {
+				params[o] = true
+			}
+		}
+	}
+	ok := map[*ast.Ident]bool{}
+	ast.Inspect(lit.Body, func(m ast.Node) bool {
+		if ix, isIx := m.(*ast.IndexExpr); isIx {
+			if id, isId := unparen(ix.Index).(*ast.Ident); isId && nodeString(ex.fset, unparen(ix.X)) == xs {
+				ok[id] = true
+			}
+		}
+		return true
+	})
+	ast.Inspect(lit.Body, func(m ast.Node) bool {
+		if id, isId := m.(*ast.Ident); isId && params[ex.info.Uses[id]] && !ok[id] {
+			ex.oof(id.Pos(), "sort comparator uses its index parameter %s other than as a subscript of %s (only comparators of element values are modelled)", id.Name, xs)
+		}
+		return true
+	})
+}
+
 // sortComparatorObligations: irreflexive, transitive, and incomparability is transitive, for arbitrary
 // indices into the slice as it is when sort.Slice is called (the comparator is executed symbolically).
 func (ex *Exec) sortComparatorObligations(st *State, pc *preparedCall, old Val) {
@@ -1021,6 +1053,7 @@ func (ex *Exec) sortSliceIntrinsic(st *State, pc *preparedCall, k func(*State, [
 	// The model below ("no later element is less than an earlier one") is what sort.Slice guarantees only
 	// for a strict weak order, and is contradictory for a comparator such as x[i] <= x[j]: that the literal
 	// comparator IS a strict weak order on the elements of the slice is an obligation of the caller.
+	ex.comparatorUsesIndexesOnlyAsSubscripts(pc)
 	ex.sortComparatorObligations(st, pc, old)
 	nv := ex.freshWf(st, "sorted", ex.typeOf(xe))
 	n := app("s-len", nv.T)
